@@ -92,7 +92,7 @@ def as_material_array(material, basis, phases, chemicals):
                 if isinstance(i.dct, DictionaryView):
                     return material.copy(), None, material
             else:
-                return material.copy(), None, None
+                return material, None, None
         else:
             raise Exception('unknown error')
     elif phases:
